@@ -32,6 +32,7 @@ Finally write these files:
  %(wt)s/seeddemo/patch.diff   - output of `git diff` for the library change only (not the demo)
  %(wt)s/seeddemo/README.txt   - 5-10 lines: what the change is, what exactly is needed for the violation to manifest, how to run the demonstration (exact command), and the outputs you observed with and without the change.
 Leave the worktree with the change applied and the demo in place. In your final answer, summarise the change, the trigger and the commands you ran with their results.
+Separately: if, while exploring, you notice that the UNCHANGED tree already violates the property for some input or some way of using the API (object reuse, unusual registration, repeated calls ...), say so at the end of your answer under the heading "Side observations", each with a minimal reproduction you actually ran. Do not build your seeded change on such an observation.
 '''
 for i in ids:
     wt = '/tmp/seed%s_%s' % (rnd, i)
